@@ -63,7 +63,15 @@ func caseGen() *rapid.Generator[Case] {
 		// a small palette of styles per case so that formats repeat
 		palette := rapid.SliceOfN(rapid.SampledFrom(Styles), 1, 3).Draw(t, "palette")
 		for i := 0; i < n; i++ {
-			if rapid.IntRange(0, 3).Draw(t, "kind") == 0 {
+			kind := rapid.IntRange(0, 9).Draw(t, "kind")
+			if kind == 9 {
+				to := itemGen().Draw(t, "to")
+				c.Acts = append(c.Acts, Act{K: "mutate", Op: &gen.Op{K: "mutate", Ref: rapid.IntRange(0, 5).Draw(t, "ref"), Cap: rapid.IntRange(0, 3).Draw(t, "cell"),
+					Items: []gen.Item{{K: "str", S: to.S, G: to.G, E: to.E, N: to.N}}}})
+			} else if kind == 8 {
+				c.Acts = append(c.Acts, Act{K: "faulty", Style: rapid.SampledFrom(palette).Draw(t, "style"), Reuse: rapid.Bool().Draw(t, "reuse"),
+					FaultK: rapid.IntRange(0, 12).Draw(t, "k"), FaultMode: rapid.SampledFrom([]string{"from", "once", "partial"}).Draw(t, "mode")})
+			} else if kind < 2 {
 				c.Acts = append(c.Acts, Act{K: "setprop", Owner: rapid.SampledFrom([]string{"table", "column", "row", "cell", "cell", "cell", "hdr"}).Draw(t, "owner"),
 					I: rapid.IntRange(0, 3).Draw(t, "i"), J: rapid.IntRange(0, 2).Draw(t, "j"), Key: rapid.IntRange(0, 3).Draw(t, "key")})
 			} else {
